@@ -120,3 +120,13 @@ package executable
 //@   on store event.BasicTaskTerminated.FinalMesosState : assert waited && stored == 0 && (took ==> value == pv) && (!took ==> value == (if werr then mesos.TASK_FAILED else mesos.TASK_FINISHED)) ; stored = 1
 //@   on call field.taskBase.sendDeviceEvent : assert stored == 1 && sent == 0 ; sent = 1
 //@   ensures sent <= 1 && waited
+
+// ---------------------------------------------------------------------------------------------------------
+// C17: every child is started as the leader of its own process group (Setpgid), whoever it runs as: the kill paths
+// signal the negative pid, which reaches the whole group only if the group exists.
+//@ func setPdeathsig(attr *syscall.SysProcAttr)
+//@   noverify
+//@   modifies attr.Pdeathsig
+//@ func prepareTaskCmd(commandInfo *common.TaskCommandInfo) (cmd *exec.Cmd, err error)
+//@   property C17
+//@   ensures err == nil ==> cmd != nil && cmd.SysProcAttr != nil && cmd.SysProcAttr.Setpgid
